@@ -197,7 +197,11 @@ class UnaryOperation(Node):
             operation = '-'
         else:
             operation = operation + ' '
-        return vsprintf("%s%s", operation, operand.generate_lingo(indentation))
+        operand_str: str = operand.generate_lingo(indentation)
+        if operation == '-' and operand_str.startswith('-'):
+            # Two consecutive minus signs start a comment in Lingo
+            operand_str = '(' + operand_str + ')'
+        return vsprintf("%s%s", operation, operand_str)
 
     def generate_js(self, indentation: int, factory_method: bool) -> str:
         operand = cast(Node, self.operand)
